@@ -89,6 +89,11 @@ fn judge_one(input: &[u8], expect: V2Ref, what: &str, rec: &mut Recorder) {
 /// fixed part, need = declared length, and supplying exactly need - have more bytes (any values)
 /// gives a success of 16 + need bytes.
 pub fn follow_through(input: &[u8], what: &str, rec: &mut Recorder) {
+    follow(input, what, true, rec)
+}
+
+/// `complete = false`: one call only - the counts of whatever incomplete result comes back.
+pub fn follow(input: &[u8], what: &str, complete: bool, rec: &mut Recorder) {
     rec.event();
     let got = guard(|| v2::Header::try_from(input).map(|h| h.len()));
     let viol = |rec: &mut Recorder, rule: &str, d: String| {
@@ -111,6 +116,9 @@ pub fn follow_through(input: &[u8], what: &str, rec: &mut Recorder) {
             let declared = if input.len() >= 16 { u16::from_be_bytes([input[14], input[15]]) as usize } else { usize::MAX };
             if input.len() < 16 || have != input.len() - 16 || need != declared || have >= need {
                 viol(rec, "partial-counts", format!("Partial({}, {}) reported, {} payload bytes present, declared length {}", have, need, input.len().saturating_sub(16), declared));
+                return;
+            }
+            if !complete {
                 return;
             }
             let mut buf = input.to_vec();
@@ -249,6 +257,12 @@ fn case(pair: u64, len: u16, seed: u64, rec: &mut Recorder) {
                 judge_one(&buf, V2Ref::Partial(l - j, l), "supplied-fewer-than-missing", rec);
             }
         }
+        // the connection is abandoned mid-header: the last thing this thread's receive buffer saw
+        // of it is an unfinished header (the next case rewrites the buffer in place)
+        judge_one(&big[..16], V2Ref::Partial(0, l), "truncated", rec);
+        if l > 1 && (l ^ pair as usize) & 1 == 1 {
+            judge_one(&big[..17], V2Ref::Partial(1, l), "truncated", rec);
+        }
     });
 }
 
@@ -274,7 +288,7 @@ impl Monitor for C17 {
                 let mut b = b.borrow_mut();
                 spec::v2::v2_case(name, idx, seed, &mut b);
                 rec.case(spec::rng::hash_bytes(&b[..b.len().min(64)]) ^ b.len() as u64, b.len() >= 12 && b[..12] == spec::v2::SIG);
-                spec::sib::run_v2(&b, idx, 3, |x| follow_through(x, "any-input", rec));
+                spec::sib::run_v2_two_pass(&b, idx, 3, |x, light| follow(x, "any-input", !light, rec));
             });
             return;
         }
